@@ -114,9 +114,8 @@ func (m *MainLoop) run(ctx context.Context) {
 			shutdown = true
 
 		case message := <-m.messagesChannel:
-			parsedMessage := interfaces.ToConsensusMessage(message)
-
-			m.logger.Debug("LHFLOW LHMSG MAINLOOP RECEIVED %v from %v for H=%d V=%d", parsedMessage.MessageType(), parsedMessage.SenderMemberId(), parsedMessage.BlockHeight(), parsedMessage.View())
+			// the content is untrusted bytes: it is decoded only by the worker, never here
+			m.logger.Debug("LHFLOW LHMSG MAINLOOP RECEIVED message")
 
 			select {
 			default: // never block the main loop
